@@ -146,7 +146,7 @@ impl<'a> Iterator for IndexedStringLineIterator<'a> {
     type Item = IndexedStringLine<'a>;
 
     fn next(&mut self) -> Option<Self::Item> {
-        if self.byte_offset >= self.source.bytes().len() {
+        if self.byte_offset > self.source.bytes().len() {
             return None;
         }
         let next_offset = self.source[self.byte_offset..]
@@ -184,14 +184,13 @@ impl PrettyParseError {
     /// The `source_file` parameter is used to print the error with the same format `rustc` does.
     pub fn from_parse_error(err: &ParseError, text: &str, source_file: Option<&str>) -> Self {
         let target_line = IndexedStringLineIterator::new(text)
-            .find(|l| l.start_offset <= err.position && l.end_offset >= err.position)
+            .find(|l| l.start_offset <= err.position && l.end_offset > err.position)
             .unwrap();
         let character_position = target_line
             .s
             .char_indices()
-            .map(|(cp, _c)| cp)
-            .position(|cp| cp == err.position - target_line.start_offset)
-            .unwrap_or(0);
+            .take_while(|(cp, _c)| *cp < err.position - target_line.start_offset)
+            .count();
         #[cfg(peginator_verif)]
         crate::verif_hooks::observe_pretty_location(
             target_line.lineno,
